@@ -185,7 +185,10 @@ BeginJ ==
        \* with real SQLite in the T3 tier): no journal file exists while the database is in WAL mode
        /\ (toWal => fin = "DELETE")
        /\ plan' = [kind |-> "j", ns |-> ns, M |-> M, out |-> out, fin |-> fin, nosync |-> nosync,
-                   wal |-> toWal, v |-> ops + 1, E |-> E, F |-> F]
+                   wal |-> toWal, v |-> ops + 1, E |-> E, F |-> F,
+                   \* whether the journal file existed already (left by PERSIST / TRUNCATE): LiteFS then sees an
+                   \* open, not a create - kept in the plan so that both ways of reaching a state are emitted
+                   jpre |-> jr.ex]
        /\ H("BeginJ", [ns |-> ns, M |-> M, out |-> out, fin |-> fin, nosync |-> nosync, wal |-> toWal, v |-> ops + 1, E |-> E, F |-> F])
 
 (* ---------------- rollback-journal protocol ---------------- *)
